@@ -186,7 +186,7 @@ impl Prop for C15 {
     fn runs(&self, tier: Tier) -> u64 {
         match tier {
             Tier::Quick => 300_000,
-            Tier::Thorough => 5_000_000,
+            Tier::Thorough => 1_500_000,
             Tier::Tiny => 50,
         }
     }
@@ -207,8 +207,9 @@ impl Prop for C15 {
         v.into_iter().map(String::from).collect()
     }
 
-    fn gen(&self, seed: u64, run: u64, _tier: Tier) -> Trace {
+    fn gen(&self, seed: u64, run: u64, tier: Tier) -> Trace {
         let mut rng = Rng::new(mix(seed, "C15", run));
+        let deep = tier == Tier::Thorough && run % 4 == 3;
         let mut trng = Rng::new(mix(seed, "C15-tree", run / 64));
         let tree = gen_tree(&mut trng, true, 2, 2, 0);
         let cfg = Config {
@@ -222,7 +223,7 @@ impl Prop for C15 {
         let mut shadow = fresh_shadow(&cfg);
         let w_hw = *rng.pick(&[1u32, 3, 6]);
         let w_msg = *rng.pick(&[2u32, 4]);
-        let nmax = *rng.pick(&[15usize, 40, 80]);
+        let nmax = if deep { 400 } else { *rng.pick(&[15usize, 40, 80]) };
         let n = rng.urange(10, nmax);
         let mut uniq = 0u32;
         for _ in 0..n {
